@@ -322,6 +322,13 @@ fn tamper_eval(t: &TamperTarget, f: &Fault, r: &mut Rng) -> Vec<(String, String)
         Err(p) => out.push((format!("panic:{}", panic_sig(&p)), format!("reading after tampering panicked: {p}"))),
         Ok(Err(_)) => {} // failing is fine
         Ok(Ok(now)) => {
+            // the listing went through without an error: a snapshot whose stored file was tampered with (and is still
+            // there) must not have been dropped from it on the quiet - that is a read returning something else
+            if let Fault::Flip(FileType::Snapshot, a, ..) | Fault::Truncate(FileType::Snapshot, a, _) | Fault::Extend(FileType::Snapshot, a, _) = f {
+                if st.has(FileType::Snapshot, a) && !now.contains_key(a) {
+                    out.push(("tampered-snapshot-silently-omitted".to_string(), format!("the snapshot listing succeeded without error and without snapshot {a}, whose stored file was modified")));
+                }
+            }
             for (id, (_, o)) in &now {
                 let Ok(o) = o else { continue }; // failing is fine
                 match t.baseline.get(id) {
